@@ -83,7 +83,7 @@ class Prop(PropBase):
     id = "C11"
     lean_targets = ["PbProps.C11"]
     theorems = ["Pb.C11." + t for t in ("C11_read_len_start", "C11_bounds", "C11_offset_roundtrip", "C11_adjacent",
-                                        "C11_index_maps", "C11_interleaving", "C11_shared_handle_breaks")]
+                                        "C11_index_maps", "C11_interleaving", "C11_shared_handle_breaks", "C11_source_literals")]
     trusted_base = ["PbModel/Reader.lean (hand model)", "baseband package (ground truth for file content; writer for generated files)",
                     "OS / threads / Dask scheduler (exercised, not modelled)"]
     assumptions = ["offset_at times at least 1e-3 sample away from half-sample ties (np.round on a computed float)"]
